@@ -206,7 +206,10 @@ func (s *sys) Do(op string) (string, *eng.Violation) {
 	allowed := true       // the pin model allows the call
 	fault := "none"       // environment fault that may make it fail
 	apply := func() {}    // effect on the model if the call returns nil and is allowed
-	target := fl[1]
+	target := ""
+	if len(fl) > 1 {
+		target = fl[1]
+	}
 	switch fl[0] {
 	case "Pin", "PinMode":
 		c, mode, name := fl[1], fl[2], pinName(fl[3])
